@@ -205,9 +205,37 @@ impl Display for Value {
             Value::Bool(ref s) => write!(f, "{}", s),
             Value::DateTime(ref dt) => write!(f, "{:?}", dt),
             Value::Duration(ref d) => write!(f, "{:?}", d),
-            Value::Obj(ref o) => write!(f, "{:?}", o),
-            Value::Array(ref o) => write!(f, "{:?}", o),
+            Value::Obj(ref o) => write!(f, "{:?}", StableObj(o)),
+            Value::Array(ref o) => f.debug_list().entries(o.iter().map(Stable)).finish(),
             Value::None => write!(f, "None"),
+        }
+    }
+}
+
+/// `{:?}` of a value with the entries of every object in key order: `im::HashMap` iterates in an
+/// order that depends on the process' hash seed, which must not show in the output.
+struct Stable<'a>(&'a Value);
+struct StableObj<'a>(&'a im::HashMap<String, Value>);
+
+impl fmt::Debug for StableObj<'_> {
+    fn fmt(&self, f: &mut fmt::Formatter) -> fmt::Result {
+        let mut items = self.0.iter().collect::<Vec<_>>();
+        items.sort_by(|l, r| l.0.cmp(r.0));
+        f.debug_map()
+            .entries(items.into_iter().map(|(k, v)| (k, Stable(v))))
+            .finish()
+    }
+}
+
+impl fmt::Debug for Stable<'_> {
+    fn fmt(&self, f: &mut fmt::Formatter) -> fmt::Result {
+        match self.0 {
+            Value::Obj(o) => f.debug_tuple("Obj").field(&StableObj(o)).finish(),
+            Value::Array(a) => f
+                .debug_tuple("Array")
+                .field(&a.iter().map(Stable).collect::<Vec<_>>())
+                .finish(),
+            other => write!(f, "{:?}", other),
         }
     }
 }
